@@ -46,10 +46,15 @@ VarCodes(init) ==
 
 Members == {"prop-arr-call-first", "static-prop-arr-call-first", "method-default-arr-call-first", "prop-ann", "prop-lit", "prop-call", "priv-prop-call", "hash-prop-call", "method-ann", "method-infer", "method-void", "getter-none", "getter-ann",
             "setter-typed", "setter-untyped", "priv-method-infer", "ctor-param-prop", "ctor-untyped", "priv-ctor-untyped", "static-block", "static-prop-call",
-            "accessor-ann", "readonly-lit", "optional-method-ann"}
+            "accessor-ann", "readonly-lit", "optional-method-ann",
+            \* decorators are removed wherever they stand (class, property, method, accessor, parameter); never a diagnostic
+            "dec-prop-ann", "dec-static-prop-ann", "dec-prop-lit", "dec-priv-prop", "dec-method", "dec-accessor", "dec-getter", "dec-param",
+            "dec-ctor-param-prop", "dec-class"}
 MemberCodes(m) ==
   CASE m \in {"prop-ann", "prop-lit", "priv-prop-call", "hash-prop-call", "method-ann", "method-void", "getter-ann", "setter-typed", "priv-method-infer",
-              "ctor-param-prop", "priv-ctor-untyped", "static-block", "accessor-ann", "readonly-lit", "optional-method-ann"} -> {}
+              "ctor-param-prop", "priv-ctor-untyped", "static-block", "accessor-ann", "readonly-lit", "optional-method-ann",
+              "dec-prop-ann", "dec-static-prop-ann", "dec-prop-lit", "dec-priv-prop", "dec-method", "dec-accessor", "dec-getter", "dec-param",
+              "dec-ctor-param-prop", "dec-class"} -> {}
     [] m \in {"prop-call", "static-prop-call", "setter-untyped", "ctor-untyped", "prop-arr-call-first", "static-prop-arr-call-first", "method-default-arr-call-first"} -> {TYP}
     [] m \in {"method-infer", "getter-none"} -> {RET}
 
